@@ -251,6 +251,7 @@ ENTRIES = {
     "pad_bottom_mean": (_pad_mean((1, 4, 4, 4), ((0, 0), (0, 1), (0, 0), (0, 0))), "C13-26"),
     "lrelu_pad_mean_tanh_uint8": (_pad_mean((1, 9, 10, 1), ((0, 0), (1, 2), (1, 0), (0, 0)), "uint8", True), "C13-26"),
     "pad_mean_split_70x70": (_pad_mean((1, 70, 70, 4), ((0, 0), (1, 1), (1, 1), (0, 0))), "C13-26"),
+    "pad0_mean_tall_70x1": (_pad_mean((1, 70, 1, 16), ((0, 0), (0, 0), (0, 0), (0, 0))), "C13-26"),
     # C13-27: bias 2^39 (C16 finding)
     "conv_int16_bias_2p39": (_conv_bias40(1 << 39), "C13-27"),
     "conv_int16_bias_2p40m1": (_conv_bias40((1 << 40) - 1), "C13-27"),
